@@ -3,8 +3,12 @@ package checks
 import (
 	"encoding/json"
 	"fmt"
+	"strings"
 	"time"
 
+	plrt "github.com/GuanceCloud/platypus/pkg/engine/runtime"
+
+	"verif/mc/internal/drv"
 	"verif/mc/internal/rt"
 	"verif/mc/internal/run"
 )
@@ -45,11 +49,46 @@ func c03Conds() []nodeFn {
 	}
 }
 
+// the canary: a script loaded once per worker that only reads names. It is
+// run directly after every program (no load in between, as a host running
+// loaded scripts back to back does): a name no script of THIS run assigned
+// reads the point's key or nil, whatever ran before.
+const c03CanarySrc = "p(x, y, z, v, w, u, i, lst, mp, pk, n0, _)\n"
+
+var (
+	c03Canary     *plrt.Script
+	c03CanaryWant string
+)
+
+func c03RunCanary() (string, string) {
+	res := drv.Run(c03Canary, c03Point().real().Build(), &drv.Sig{FireAt: realPollCap})
+	if res.Panic != "" {
+		return "PANIC " + res.Panic, ""
+	}
+	return strings.Join(res.Trace, ";") + "|" + fmt.Sprint(res.Err), res.Point
+}
+
 func c03Exec(w *run.Worker, part string, stmts []*rt.Node) {
+	if c03Canary == nil {
+		sc, err := drv.Load1("canary.p", c03CanarySrc)
+		if err != nil {
+			w.Violate("C03:harness:canary-does-not-load", err.Error(), c03Case{Part: "canary", Source: c03CanarySrc})
+			return
+		}
+		c03Canary = sc
+		c03CanaryWant, _ = c03RunCanary()
+		if want := `p(nil,nil,nil,nil,nil,nil,nil,nil,nil,s:"pv",i:0,s:"msg")|<nil>`; c03CanaryWant != want {
+			w.Violate("C03:canary:first-run-in-fresh-worker", fmt.Sprintf("canary gives %s, expected %s", c03CanaryWant, want), c03Case{Part: "canary", Source: c03CanarySrc})
+		}
+	}
 	p := &Prog{Scripts: map[string][]*rt.Node{"s.p": stmts}, Main: "s.p", Point: c03Point()}
 	w.Eval()
 	v := Differential(p)
 	w.Outcome(v.Outcome)
+	if got, _ := c03RunCanary(); got != c03CanaryWant {
+		w.Violate("C03:canary:names-bound-by-an-earlier-run", fmt.Sprintf("after the program below ran, a script that only reads names sees %s instead of %s\n%s", got, c03CanaryWant, p.Sources()["s.p"]),
+			c03Case{Part: "canary", Source: p.Sources()["s.p"]})
+	}
 	if v.Skipped != "" {
 		w.Note("unspecified_cells_skipped", 1)
 		return
@@ -383,6 +422,21 @@ func c03Replay(raw json.RawMessage) (bool, string) {
 	if err := json.Unmarshal(raw, &c); err != nil {
 		return false, err.Error()
 	}
+	if c.Part == "canary" {
+		sc, err := drv.Load1("canary.p", c03CanarySrc)
+		if err != nil {
+			return true, err.Error()
+		}
+		c03Canary = sc
+		want, _ := c03RunCanary()
+		prog, err := drv.Load1("s.p", c.Source)
+		if err != nil {
+			return false, "program does not load: " + err.Error()
+		}
+		drv.Run(prog, c03Point().real().Build(), &drv.Sig{FireAt: realPollCap})
+		got, _ := c03RunCanary()
+		return got != want, fmt.Sprintf("canary alone: %s\ncanary after the program: %s", want, got)
+	}
 	return replaySource(c.Source, c03Point())
 }
 
@@ -393,7 +447,7 @@ func init() {
 		Rule: "(A) every ordered pair of 26 condition representatives (all truthiness classes; literals, variables, point keys, a tag, an absent name) in if/elif/else, and each as for-condition; " +
 			"(B) 17 iterables (lists, strings incl. multi-byte, 0/1/2-key maps, point values, non-iterables) x 4 loop-variable names x 9 bodies (continue, break, nested loop, shadowing, mutation during iteration); " +
 			"(C) every program of total size <=3 (thorough <=4) statements, nesting <=3, over {probe(x,y), probe(pk,_), x=x+1, y=7, x+=10, pk=x, pk=nil, n0+=5 (a name that is only a point key), x=x/n0 (a run-time error while n0 is 0), break, continue} x if / if-else / if-elif-else x the 12 three-clause for shapes (init absent|y=0, condition absent|x<2, post absent|x=x+1|z=x) x 3 for-in forms, final probe of x, y, pk, z, n0; " +
-			"ordered probe trace + final point compared with the reference interpreter; map iteration order is tried in both orders",
+			"ordered probe trace + final point compared with the reference interpreter; map iteration order is tried in both orders; after EVERY program a name-reading canary script (loaded once) runs with no load in between and must see only the point's keys and nil",
 		Assumptions: []string{"non-terminating programs are cut by a signal after 3000 polls (real) / 40000 steps (reference) and compared as trace prefixes"},
 		Run:            c03Run,
 		Replay:         c03Replay,
